@@ -22,7 +22,7 @@ from ..core.framework import Ctx, b2s
 
 SPEC = {
     "modules": ["HC.Props.C05"],
-    "extracted": ["Guards", "Consts", "H11Tables", "AppExit"],
+    "extracted": ["Guards", "Consts", "H11Tables", "AppExit", "ReqGlue"],
     "technique": "Lean 4 theorems on (a) the try/except/finally of both workers' _handle as read off the source (every way the application can end - return, exception, cancellation, exception groups - signals completion; a raise is logged once and contained), (b) the stream transducers (exit in REQUEST/HANDSHAKE => exactly a complete 500 then stream-closed; exit after the start => stream-closed with no end-of-body; a refused message starts nothing, in the model and in the statement order of the REQUEST-state branches of the source) composed with the h11 recycle rule (no EndOfMessage => our side is not DONE => Closed) and the HTTP/2 reset rule; tied by an exhaustive crash-point grid on both workers judged by independent client parsers",
     "level_text": "Proved in Lean for every state of a request: however the application ends (returns, raises an exception or an exception group, is cancelled) the try statement of _handle on both workers - extracted from the source on every run - signals completion, logs a raise exactly once before doing so and lets no exception but a cancellation travel further; when the application finishes before a response start, the protocol layer is handed exactly a complete 500 response (content-length 0, connection: close), one access record and stream-closed; a message the stream refuses (invalid headers or status, wrong state: the exception is raised into the application) hands nothing to the protocol and leaves the stream where it was, so dying with that exception is answered 500 before the start and aborts after it - proved for the model and, as statement order (state is assigned only after the Response event was handed over), for the source's REQUEST-state branches; when the application finishes after the start but before the end, the protocol is handed stream-closed and never an end-of-body, so on HTTP/1 h11's writer is not DONE and the connection is closed instead of recycled (the response stays visibly incomplete), and on HTTP/2 the stream is reset; a WebSocket gets 500 in the handshake and close 1011 when connected.  Tie: every step index of five scripted applications (the point after completion included) x {raise, return, cancel, refused message} with every variant of each (bare / group exception; cancelled inner await / own task cancelled; every refusal hypercorn makes in the state reached) on HTTP/1.1 (with a pipelined follower), HTTP/2 (with a sibling stream that must complete) and WebSocket, both workers; verdicts by independent h11/h2 parsers; exactly one error-log record per raise; stream-level model/implementation correspondence of the exit step after each refused message.",
     "level_note": "Trusted: Lean kernel; stream models and H11Protocol model (differential runs in C12/C06); the extractor's reading of _handle and of the REQUEST-state branches (unrecognised statements are an EXTRACT-FAIL); h11 framing decides whether an aborted body is visibly incomplete: a response whose whole declared content-length was already written, or a close-delimited HTTP/1.0 body, cannot be distinguished from a complete one by any client and is outside the statement; the HTTP/2 reset rule is the code path added by the F06 repair.",
@@ -43,9 +43,15 @@ FAMILIES = {
                       ["send", {"type": "http.response.body", "body": b"def"}]],
     "declared_length": [["recv_body"], ["send", START_CL], ["send", {"type": "http.response.body", "body": b"abc", "more_body": True}],
                         ["send", {"type": "http.response.body", "body": b"def", "more_body": True}], ["send", {"type": "http.response.body"}]],
+    "respond_unread": [["send", {"type": "http.response.start", "status": 200, "headers": [(b"content-length", b"3")]}],
+                       ["send", {"type": "http.response.body", "body": b"abc"}]],
     "stream_three": [["send", START], ["send", {"type": "http.response.body", "body": b"1", "more_body": True}], ["sleep", 0.1],
                      ["send", {"type": "http.response.body", "body": b"2", "more_body": True}], ["send", {"type": "http.response.body", "body": b"3"}]],
 }
+# HTTP/2 upload that is still in flight when the application ends: one connection window (65535) in all
+UPLOAD = bytes(range(256)) * 255 + bytes(255)
+UPLOAD_FIRST = 1000
+SIBLING_UPLOAD = b"s" * 20000
 WS_FAMILY = [["recv"], ["send", {"type": "websocket.accept"}], ["recv"], ["send", {"type": "websocket.send", "text": "echo"}], ["recv"]]
 SIBLING = [["recv_body"], ["send", {"type": "http.response.start", "status": 200, "headers": [(b"content-length", b"7")]}],
            ["send", {"type": "http.response.body", "body": b"sibling"}]]
@@ -141,6 +147,16 @@ def grid(full: bool = False) -> List[dict]:
                         if v is not None:
                             c["variant"] = v
                         cases.append(c)
+    # HTTP/2, the request body still in flight when the application ends: every crash point x kind (canonical variant)
+    for fam, steps in FAMILIES.items():
+        for idx in range(len(steps) + 1):
+            for kind in KINDS:
+                for worker in ("asyncio", "trio"):
+                    c = {"family": fam, "crash_at": idx, "kind": kind, "proto": "2", "worker": worker, "upload": "in_flight"}
+                    v = variants(c)[0]
+                    if v is not None:
+                        c["variant"] = v
+                    cases.append(c)
     sweep = [(fam, range(len(steps) + 1)) for fam, steps in list(FAMILIES.items()) + [("ws", WS_FAMILY)]] if full else \
         [("read_then_respond", (1, 2, 4)), ("ws", (1, 3))]
     for fam, idxs in sweep:
@@ -201,6 +217,27 @@ def run_case(case: dict) -> dict:
         finals = [r for r in p["responses"] if not r.get("informational")]
         view = {"responses": [{"status": r["status"], "complete": r["complete"], "body": r["body"], "headers": r["headers"]} for r in finals],
                 "parse_error": p["error"], "closed": res["closed_at"] is not None}
+    elif case["proto"] == "2" and case.get("upload") == "in_flight":
+        # The client is uploading a connection window's worth of request body when the application ends: the first part
+        # arrives with the request, the rest is already on its way (the client has not looked at the server's answer
+        # yet) and arrives in later reads, on a stream the server may have answered, reset or forgotten by then.
+        # Afterwards a sibling stream uploads a body of its own: it needs connection window the failed stream used.
+        async def client(io):
+            c = C.H2Client()
+            s1 = c.request(C.h2_headers("POST", "/crash"), UPLOAD[:UPLOAD_FIRST], end=False)
+            await io.send(c.out())
+            await io.sleep(0.5)
+            c.send_data(s1, UPLOAD[UPLOAD_FIRST:], True)
+            rest = c.out()
+            step = len(rest) // 4 + 1
+            for k in range(0, len(rest), step):
+                await io.send(rest[k:k + step])
+            await c.pump(io)
+            s3 = c.request(C.h2_headers("POST", "/sibling"), SIBLING_UPLOAD)
+            await c.pump(io)
+            await io.sleep(2.0)
+            await c.pump(io)
+            return {"summary": c.summary(), "s1": s1, "s3": s3, "unsent": {str(k): len(v[0]) for k, v in c.pending.items()}}
     elif case["proto"] == "2":
         async def client(io):
             c = C.H2Client()
@@ -211,11 +248,15 @@ def run_case(case: dict) -> dict:
             await io.sleep(2.0)
             await c.pump(io)
             return {"summary": c.summary(), "s1": s1, "s3": s3}
+    if case["proto"] == "2":
         res = R.RUNNERS[case["worker"]]({"keep_alive_timeout": 3}, "h2", client, [script, SIBLING], tail=10)
-        cr = res.get("client_result") or {"summary": {"streams": {}, "error": "client did not finish", "goaway": None}, "s1": 1, "s3": 3}
+        cr = res.get("client_result") or {"summary": {"streams": {}, "error": "client did not finish: " + str(res.get("client_error")), "goaway": None}, "s1": 1, "s3": 3}
+        sib_app = next((a for a in res["apps"] if a["scope"]["path"] == "/sibling"), None)
         view = {"crash": cr["summary"]["streams"].get(str(cr["s1"]), {}), "sibling": cr["summary"]["streams"].get(str(cr["s3"]), {}),
-                "error": cr["summary"]["error"], "goaway": cr["summary"]["goaway"], "closed": res["closed_at"] is not None}
-    else:
+                "error": cr["summary"]["error"], "goaway": cr["summary"]["goaway"], "closed": res["closed_at"] is not None,
+                "unsent": cr.get("unsent", {}),
+                "sibling_received": None if sib_app is None else sum(len(m[2]) for m in sib_app["recv"] if m[1] == "http.request")}
+    elif case["proto"] == "ws":
         from ..core.h11sessions import WS_KEY
         from wsproto.connection import Connection, ConnectionType
         from wsproto.events import TextMessage
@@ -256,11 +297,15 @@ def check(ctx: Ctx, cases: List[dict]) -> None:
         ctx.count("kind", case["kind"] + ("/" + case["variant"] if case.get("variant") and case["kind"] != "invalid" else ""))
         if case["kind"] == "invalid":
             ctx.count("invalid_message", scripted_state(case) + ":" + case["variant"])
-        ctx.distinct([case["family"], case["crash_at"], case["kind"], case.get("variant"), case["proto"], case["worker"]])
+        ctx.distinct([case["family"], case["crash_at"], case["kind"], case.get("variant"), case["proto"], case["worker"], case.get("upload")])
+        if case.get("upload"):
+            ctx.count("h2_upload", case["upload"])
         ctx.sample(case, cap=3)
         sig = {"proto": case["proto"], "kind": case["kind"]}
         if case["kind"] == "invalid":
             sig["refused"] = script_for(case)[-2][1]["type"]
+        if case.get("upload"):
+            sig["upload"] = case["upload"]
         v = o["view"]
         if o["stuck"]:
             ctx.violation("session_hangs", case, {"note": "the server session did not finish within the harness timeout"}, sig)
@@ -331,7 +376,9 @@ def check(ctx: Ctx, cases: List[dict]) -> None:
             if v["error"] or v["goaway"] is not None and st != "CLOSED":
                 ctx.violation("connection_level_failure", case, {"error": v["error"], "goaway": v["goaway"]}, sig)
             if not (sib.get("headers") and sib.get("ended") and sib.get("data") == "sibling"):
-                ctx.violation("sibling_affected", case, sib, sig)
+                ctx.violation("sibling_affected", case, {"sibling": sib, "unsent_request_body": v.get("unsent"), "sibling_received": v.get("sibling_received")}, sig)
+            elif case.get("upload") == "in_flight" and v.get("sibling_received") != len(SIBLING_UPLOAD):
+                ctx.violation("sibling_affected", case, {"sibling_received": v.get("sibling_received"), "want": len(SIBLING_UPLOAD)}, sig)
             raw = dict(c["headers"]).get(":status") if c.get("headers") else None
             status = int(raw) if isinstance(raw, str) and raw.isdigit() else None
             if st == "REQUEST":
